@@ -8,6 +8,12 @@
              the 'never writes more than size bytes' clause;
   asprintf   the buffer of gmp_asprintf_t is reallocated with its tracked `alloc` (decided by R-ALLOC.size with the
              buf/alloc invariant) - the 'allocates exactly' clause is about the final shrink to size + 1.
+  reset      __gmp_doprnt and __gmp_doscan keep the flags / width / precision / base / style of the conversion being
+             parsed in a local struct that they hand to the formatting functions; each '%' must start from the defaults.
+             Per-field dataflow over the outer (per-conversion) loop: a field assigned inside the loop and still holding
+             that value at the loop's back edge is *carried*; a carried field must be reassigned before it is read or
+             before the struct is passed on - otherwise a conversion is formatted with its predecessor's settings
+             ("standard conversions mixed into the format are unaffected" and the per-conversion C rules).
 Byte-identity of the produced text with the C library is a value property and is not decided."""
 import collections, json
 
@@ -25,6 +31,199 @@ def is_member(e, field, vid=None):
         e = e["e"]
     return isinstance(e, dict) and e.get("k") == "member" and e["field"] == field and \
         (vid is None or (e["base"].get("k") == "var" and e["base"]["id"] == vid))
+
+
+def _strip(e):
+    while isinstance(e, dict) and e.get("k") in ("cast", "paren"):
+        e = e["e"]
+    return e
+
+
+def carried_fields(fn, prop, F, stats):
+    """the `reset` clause on one function; returns the number of (field, use) obligations examined"""
+    blocks = sa.blocks_by_id(fn)
+    # the local struct whose address is passed to a callee
+    cand = collections.Counter()
+    for b in fn["blocks"]:
+        for el in b["elems"]:
+            e = el["e"]
+            if e.get("k") == "call":
+                for a in e.get("args", []):
+                    a = _strip(a)
+                    if isinstance(a, dict) and a.get("k") == "unop" and a["op"] == "&":
+                        v = _strip(a["e"])
+                        if v.get("k") == "var" and "struct" in v.get("ct", "") and "*" not in v.get("ct", "") and not v.get("global") \
+                                and v.get("param") is None:
+                            cand[(v["id"], v["name"])] += 1
+    if not cand:
+        return 0
+    (vid, vname), _ = cand.most_common(1)[0]
+
+    def is_field(e, vid=vid):
+        e = _strip(e)
+        return isinstance(e, dict) and e.get("k") == "member" and not e.get("arrow") and _strip(e["base"]).get("k") == "var" \
+            and _strip(e["base"])["id"] == vid
+
+    def passes_struct(e):
+        if e.get("k") != "call":
+            return False
+        for a in e.get("args", []):
+            a = _strip(a)
+            if isinstance(a, dict) and a.get("k") == "unop" and a["op"] == "&" and _strip(a["e"]).get("k") == "var" and _strip(a["e"])["id"] == vid:
+                return True
+        return False
+    # fields whose address is taken (value = &param.width): a store through such a pointer may assign any of them
+    addr_taken, ptr_vars = set(), set()
+    for b in fn["blocks"]:
+        for el in b["elems"]:
+            def f(n):
+                if n.get("k") == "binop" and n["op"] == "=" and _strip(n["l"]).get("k") == "var":
+                    r = _strip(n["r"])
+                    if isinstance(r, dict) and r.get("k") == "unop" and r["op"] == "&" and is_field(r["e"]):
+                        addr_taken.add(_strip(r["e"])["field"])
+                        ptr_vars.add(_strip(n["l"])["id"])
+            sa.walk(el["e"], f)
+    dom, preds = r_divzero.dominators(fn)
+    # natural loops that contain a call passing &param; the outermost is the per-conversion loop
+    use_blocks = {b["id"] for b in fn["blocks"] for el in b["elems"] if passes_struct(el["e"])}
+    loops = {}
+    for b in fn["blocks"]:
+        if b["id"] not in dom:
+            continue
+        for s_ in b["succs"]:
+            if isinstance(s_, int) and s_ in dom.get(b["id"], ()):           # back edge b -> s_
+                body, work = {s_, b["id"]}, [b["id"]]
+                while work:
+                    x = work.pop()
+                    if x == s_:
+                        continue
+                    for p_ in preds.get(x, ()):
+                        if p_ not in body and p_ in dom:
+                            body.add(p_)
+                            work.append(p_)
+                loops.setdefault(s_, set()).update(body)
+    loops = {h: body for h, body in loops.items() if body & use_blocks}
+    if not loops:
+        return 0
+    header = max(loops, key=lambda h: len(loops[h]))
+    body = loops[header]
+    # dataflow: per field  'd' assigned in this iteration, 'c' carried from an earlier one
+    IN = collections.defaultdict(set)      # block -> set of (field, 'd'|'c')
+    work = [fn["entry"]]
+    seen_entry = {fn["entry"]}
+    reported = set()
+    nuse = 0
+    visited = set()
+    while work:
+        bid = work.pop()
+        visited.add(bid)
+        st = set(IN[bid])
+        b = blocks[bid]
+        for el in b["elems"]:
+            e = el["e"]
+            inloop = bid in body
+
+            # collect reads: member occurrences that are not the target of '=' and not under '&'
+            rd = []
+
+            def walk(n, ctx):
+                if not isinstance(n, dict):
+                    return
+                k = n.get("k")
+                if k == "call" and n is not e:
+                    return                        # nested calls are their own CFG elements
+                if k == "unop" and n["op"] == "&" and is_field(n["e"]):
+                    return
+                if k == "binop" and n["op"] == "=" and is_field(n["l"]):
+                    walk(n["r"], "r")
+                    return
+                if is_field(n) and k == "member":
+                    rd.append(n["field"])
+                    return
+                for key, v in n.items():
+                    if isinstance(v, dict):
+                        walk(v, ctx)
+                    elif isinstance(v, list):
+                        for x in v:
+                            walk(x, ctx)
+            if e.get("k") == "call":
+                if passes_struct(e):
+                    rd = sorted({f_ for f_, tag in st if tag == "c"})
+                    nuse += 1
+                else:
+                    for a in e.get("args", []):
+                        walk(a, "r")
+            else:
+                walk(e, "r")
+            for f_ in rd:
+                nuse += 1
+                if (f_, "c") in st and (f_, el["line"]) not in reported:
+                    reported.add((f_, el["line"]))
+                    F.append(Finding(prop, "R-PRINTF", fn["file"], el["line"], fn["name"], "carried-field:%s.%s" % (vname, f_),
+                                     "%s.%s may still hold the value a previous conversion assigned to it when it is %s at line %d: it is "
+                                     "set inside the per-conversion loop (header block %d) but not reset on every path from the start of the "
+                                     "next conversion, so one '%%' conversion can be formatted with the settings of the one before"
+                                     % (vname, f_, "passed on with &%s" % vname if e.get("k") == "call" and passes_struct(e) else "read",
+                                        el["line"], header)))
+            # definitions
+            if e.get("k") == "binop" and e["op"] == "=":
+                if is_field(e["l"]):
+                    f_ = _strip(e["l"])["field"]
+                    st.discard((f_, "c"))
+                    if inloop:
+                        st.add((f_, "d"))
+                    else:
+                        st.discard((f_, "d"))
+                else:
+                    l = _strip(e["l"])
+                    if l.get("k") == "unop" and l["op"] == "*" and _strip(l["e"]).get("k") == "var" and _strip(l["e"])["id"] in ptr_vars and inloop:
+                        for f_ in addr_taken:
+                            st.add((f_, "d"))
+            elif e.get("k") == "binop" and e["op"].endswith("=") and e["op"] not in ("==", "!=", "<=", ">=") and is_field(e["l"]) and inloop:
+                st.add((_strip(e["l"])["field"], "d"))
+            elif e.get("k") == "unop" and e["op"] in ("++", "--", "post++", "post--", "pre++", "pre--") and is_field(e["e"]) and inloop:
+                st.add((_strip(e["e"])["field"], "d"))
+        if b.get("noreturn"):
+            continue
+        for s_ in b["succs"]:
+            if not isinstance(s_, int):
+                continue
+            out = st
+            if s_ == header and bid in body:
+                out = {(f_, "c") for f_, _ in st}
+            if not out <= IN[s_] or s_ not in visited:
+                IN[s_] |= out
+                work.append(s_)
+    stats["reset_loop_blocks"] += len(body)
+    stats["reset_fields_tracked"] += len({f_ for bid in body for f_, _ in IN[bid]})
+    return nuse
+
+
+def run_reset(prop, res):
+    F = res["findings"]
+    ex = sa.export(sa.cfg_built())
+    want = {"printf/doprnt.c": "__gmp_doprnt", "scanf/doscan.c": "__gmp_doscan"}
+    n = 0
+    for p, fn in ex.functions(lambda p: any(p.endswith(w) for w in want)):
+        if fn["name"] in want.values():
+            k = carried_fields(fn, prop, F, res["stats"])
+            if k < 5:
+                raise AnalysisBroken("R-PRINTF.reset: only %d uses of the conversion-parameter struct found in %s (floor 5)" % (k, fn["name"]))
+            res["stats"]["reset_uses"] += k
+            n += 1
+            res["samples"].append(dict(rule="R-PRINTF.reset", function=fn["name"], uses=k))
+    if n != 2:
+        raise AnalysisBroken("R-PRINTF.reset: __gmp_doprnt / __gmp_doscan not both found")
+    # fixtures
+    fx = os.path.join(VERIF, "selftest", "fixtures", "printf_fix.c")
+    exf = sa.export(sa.Config("printf-fix", units=[], extra_files=[fx]))
+    got = {}
+    for fn in exf.load(fx)["functions"]:
+        ff = []
+        carried_fields(fn, prop, ff, collections.Counter())
+        got[fn["name"]] = len(ff)
+    if not got.get("fix_bad_carry") or got.get("fix_good_carry") or got.get("fix_good_hoisted"):
+        raise AnalysisBroken("R-PRINTF.reset fixtures: %r" % got)
 
 
 def run(prop="C18", tier="quick"):
@@ -160,11 +359,12 @@ def run(prop="C18", tier="quick"):
         res["samples"].append(dict(rule="R-PRINTF.snprintf", function=fn["name"], size_holders=len(holds_size), min_bounded_vars=len(min_vars)))
     if res["stats"]["buffer_writes"] < 4:
         raise AnalysisBroken("R-PRINTF: only %d writes through d->buf found in snprntffuns.c (floor 4)" % res["stats"]["buffer_writes"])
+    run_reset(prop, res)
     # ---- asprintf sizes (R-ALLOC.size restricted to printf/) ----------------------------------------
     ra = r_alloc.run(prop=prop, tier=tier)
     F += [f for f in ra["findings"] if "/printf/" in f.file or "/scanf/" in f.file]
     res["stats"]["alloc_sites_printf"] = ra["stats"].get("allocator_sites", 0)
     res["stats"] = dict(res["stats"])
-    res["obligations"] = res["stats"]["table_slots"] + res["stats"]["buffer_writes"] * 2 + res["stats"].get("cursor_updates", 0)
+    res["obligations"] = res["stats"]["table_slots"] + res["stats"]["buffer_writes"] * 2 + res["stats"].get("cursor_updates", 0) + res["stats"].get("reset_uses", 0)
     res["exhaustive"] = True
     return res
